@@ -328,6 +328,9 @@ pub enum Op {
 	Flush,
 	Events { node: u16 },
 	Forwards { node: u16 },
+	/// only the first half of `process_pending_htlc_forwards`: the onions of newly committed inbound HTLCs are decoded
+	/// and the HTLCs queued for forwarding (a manager written right afterwards by another thread contains that queue)
+	DecodeAdds { node: u16 },
 	Disconnect { pair: u16 },
 	Reconnect { pair: u16 },
 	SetFee { node: u16, rate: u32 },
@@ -386,11 +389,12 @@ pub struct OpWeights {
 	/// payments to a recipient behind a blinded path it built itself (0 in most profiles)
 	pub send_blinded: u32,
 	pub setfee_jump: u32,
+	pub decode_adds: u32,
 }
 
 impl OpWeights {
 	pub fn zero() -> OpWeights {
-		OpWeights { send: 0, claim: 0, fail: 0, deliver: 0, flush: 0, events: 0, forwards: 0, disconnect: 0, reconnect: 0, setfee: 0, timer: 0, async_toggle: 0, complete: 0, pump: 0, force_close: 0, tamper_revoke: 0, mine: 0, reorg: 0, set_style: 0, snapshot: 0, restart: 0, send_blinded: 0, setfee_jump: 0 }
+		OpWeights { send: 0, claim: 0, fail: 0, deliver: 0, flush: 0, events: 0, forwards: 0, disconnect: 0, reconnect: 0, setfee: 0, timer: 0, async_toggle: 0, complete: 0, pump: 0, force_close: 0, tamper_revoke: 0, mine: 0, reorg: 0, set_style: 0, snapshot: 0, restart: 0, send_blinded: 0, setfee_jump: 0, decode_adds: 0 }
 	}
 }
 
@@ -414,6 +418,7 @@ pub fn op_strategy(w: OpWeights) -> impl Strategy<Value = Op> + Clone {
 		(w.flush, Just(Op::Flush).boxed()),
 		(w.events, any::<u16>().prop_map(|node| Op::Events { node }).boxed()),
 		(w.forwards, any::<u16>().prop_map(|node| Op::Forwards { node }).boxed()),
+		(w.decode_adds, any::<u16>().prop_map(|node| Op::DecodeAdds { node }).boxed()),
 		(w.disconnect, any::<u16>().prop_map(|pair| Op::Disconnect { pair }).boxed()),
 		(w.reconnect, any::<u16>().prop_map(|pair| Op::Reconnect { pair }).boxed()),
 		(w.setfee, (any::<u16>(), prop_oneof![253u32..2_000, 253u32..20_000]).prop_map(|(node, rate)| Op::SetFee { node, rate }).boxed()),
@@ -552,6 +557,15 @@ pub fn apply(sim: &mut Sim, spec: &WorldSpec, op: &Op) -> &'static str {
 		Op::Forwards { node } => {
 			sim.process_forwards(pick(*node, n));
 			"forwards"
+		},
+		Op::DecodeAdds { node } => {
+			let i = pick(*node, n);
+			if sim.w.nodes[i].node.test_process_pending_update_add_htlcs() {
+				sim.drain(i);
+				"decode-adds"
+			} else {
+				"decode-adds-nothing"
+			}
 		},
 		Op::Disconnect { pair } => {
 			let live: Vec<(usize, usize)> = sim.connected.iter().cloned().filter(|(a, b)| sim.chans.iter().any(|c| (c.a == *a && c.b == *b) || (c.a == *b && c.b == *a))).collect();
